@@ -36,8 +36,61 @@ func sequential(r *lib.Report, tier string) (int64, int64, []interface{}) {
 
 // ---- Compose / Pipe ----
 
+// shapeChanging: stages that change the number of values - one that drops everything, one that counts, one that
+// doubles, one that appends a tag: every function list of length 1..4 over them, applied to 0, 1 and 2
+// arguments; Compose folds from the right, Pipe from the left, whatever a stage returns (also nothing).
+func shapeChanging(r *lib.Report) (int64, int64) {
+	var states, trans int64
+	names := []string{"drop-all", "count", "double", "tag7"}
+	fns := []vfn{
+		func(s ...int) []int { return []int{} },
+		func(s ...int) []int { return []int{len(s)} },
+		func(s ...int) []int { return append(append([]int{}, s...), s...) },
+		func(s ...int) []int { return append(append([]int{}, s...), 7) },
+	}
+	var rec func(cur []int)
+	rec = func(cur []int) {
+		if len(cur) > 0 {
+			states++
+			fs := make([]vfn, len(cur))
+			var ns []string
+			for i, k := range cur {
+				fs[i] = fns[k]
+				ns = append(ns, names[k])
+			}
+			for _, in := range [][]int{{}, {1}, {1, 2}} {
+				trans += 2
+				wantP := append([]int{}, in...)
+				for _, k := range cur {
+					wantP = fns[k](wantP...)
+				}
+				wantC := append([]int{}, in...)
+				for i := len(cur) - 1; i >= 0; i-- {
+					wantC = fns[cur[i]](wantC...)
+				}
+				var gotP, gotC []int
+				p := lib.Catch(func() { gotP = fpgo.Pipe(fs...)(in...); gotC = fpgo.Compose(fs...)(in...) })
+				if p != "" || fmt.Sprint(gotP) != fmt.Sprint(wantP) || fmt.Sprint(gotC) != fmt.Sprint(wantC) {
+					r.Violation("C20|compose|shape-changing-stages", fmt.Sprintf("stages %v on %v: Pipe gives %v (left-to-right application gives %v), Compose gives %v (right-to-left gives %v) %s", ns, in, gotP, wantP, gotC, wantC, p),
+						map[string]interface{}{"stages": ns, "input": in})
+				}
+			}
+		}
+		if len(cur) == 4 {
+			return
+		}
+		for k := range fns {
+			rec(append(append([]int{}, cur...), k))
+		}
+	}
+	rec(nil)
+	return states, trans
+}
+
 func composeAndPipe(r *lib.Report, tier string, samples *[]interface{}) (int64, int64) {
 	var states, trans int64
+	s0, t0 := shapeChanging(r)
+	states, trans = states+s0, trans+t0
 	maxLen, alpha := 4, 5
 	if tier == "thorough" {
 		maxLen = 5
@@ -772,6 +825,46 @@ func patterns(r *lib.Report, tier string, samples *[]interface{}) (int64, int64)
 							r.Violation("C20|match|wide-product", fmt.Sprintf("a CompData of a %d-field product type that differs from the pattern's type at position %d: [SumType, Otherwise] chose %q %s", n, wrong, got, p), nil)
 						}
 					}
+				}
+			}
+		}
+	}
+	// sum types whose members talk about structs: Product(Struct) accepts a plain struct (and a pointer to one,
+	// which MatchFor unpacks), the empty Product accepts no value at all; a struct that is not CompData is never
+	// taken for an empty CompData
+	{
+		structT := fpgo.DefSum(fpgo.DefProduct(reflect.Struct), fpgo.DefProduct(reflect.Int, reflect.Int))
+		emptyT := fpgo.DefSum(fpgo.DefProduct())
+		for _, c := range []struct {
+			name  string
+			v     interface{}
+			wantS string // with [SumType(Product(Struct) | Product(Int,Int)), Otherwise]
+			wantE string // with [SumType(Product()), Otherwise]
+		}{
+			{"plain struct", plainStruct{3}, "sum", "otherwise"},
+			{"pointer to struct", &plainStruct{4}, "sum", "otherwise"},
+			{"struct with pointer field", ptrStruct{&five}, "sum", "otherwise"},
+			{"int", 7, "otherwise", "otherwise"},
+			{"string", "s", "otherwise", "otherwise"},
+			{"CompData of Product(Int,Int)", *fpgo.NewCompData(structT, 1, 2), "sum", "otherwise"},
+			{"CompData of another type", *other, "otherwise", "otherwise"},
+		} {
+			for which, tt := range []fpgo.CompType{structT, emptyT} {
+				trans++
+				states++
+				want := c.wantS
+				if which == 1 {
+					want = c.wantE
+				}
+				got := ""
+				if p := lib.Catch(func() {
+					got = fmt.Sprint(fpgo.DefPattern(fpgo.InCaseOfSumType(tt, func(interface{}) interface{} { return "sum" }), fpgo.Otherwise(func(interface{}) interface{} { return "otherwise" })).MatchFor(c.v))
+				}); p != "" {
+					got = "PANIC " + p
+				}
+				if got != want {
+					r.Violation("C20|match|sum-type-of-structs", fmt.Sprintf("[SumType(%s), Otherwise] on a %s chose %q, the first accepting pattern gives %q", []string{"Product(Struct) | Product(Int,Int)", "Product()"}[which], c.name, got, want),
+						map[string]interface{}{"probe": c.name, "got": got, "want": want})
 				}
 			}
 		}
